@@ -100,6 +100,7 @@ type siteRig struct {
 	limit       int                 // 0 = none
 	limitSub    int                 // nested scope /p/sub
 	subScope    string              // how the nested scope is written: /p/sub or /p/sub/
+	limitsSplit bool                // the two scopes are written as two limits directives
 	hasMatchers bool                // C19: rewrite / redir / browse, driven by request text
 	siblings    map[string][]string // static file -> encodings present
 
@@ -413,11 +414,12 @@ func runSite(mode string) sim.RigFunc {
 		if mode == "C17" || pick(25) {
 			r.limit = []int{1, 10, 100, 4096, 65536}[st.Draw(5)]
 			if pick(50) {
-				r.limitSub = []int{0, 5, 50, 70000}[st.Draw(4)]
+				r.limitSub = []int{0, 5, 50, 70000, 9223372036854775807}[st.Draw(5)]
 				if r.limitSub == 0 {
 					r.limitSub = -1 // explicit "no nested scope"
 				}
 				r.subScope = []string{"/p/sub", "/p/sub/"}[st.Draw(2)]
+				r.limitsSplit = pick(30) // the nested scope in a limits directive of its own
 			}
 		}
 		if r.hasGzip {
@@ -454,6 +456,9 @@ func runSite(mode string) sim.RigFunc {
 			fmt.Fprintf(&b, "http://%s:0 {\n\tbind 127.0.0.1\n\tsimnet v0\n\troot %s\n", host, r.root)
 			if r.limit > 0 {
 				fmt.Fprintf(&b, "\tlimits {\n\t\tbody /p %d\n", r.limit)
+				if r.limitSub > 0 && r.limitsSplit {
+					b.WriteString("\t}\n\tlimits {\n")
+				}
 				if r.limitSub > 0 {
 					fmt.Fprintf(&b, "\t\tbody %s %d\n", r.subScope, r.limitSub)
 				}
@@ -742,7 +747,9 @@ func (r *siteRig) genReq(id, site string) *sreq {
 	if q.method == "POST" || q.method == "PUT" {
 		lim := r.limitFor(q.path)
 		var n int
-		if lim > 0 {
+		if lim > 1<<40 {
+			n = []int{0, 1, 100, 5000, 70000}[st.Draw(5)] // (a limit nobody reaches: any body passes)
+		} else if lim > 0 {
 			n = []int{0, lim - 1, lim, lim + 1, lim + 1000, lim * 3}[st.Draw(6)]
 		} else {
 			n = []int{0, 1, 100, 5000, 70000}[st.Draw(5)]
